@@ -5,6 +5,7 @@ package layer4
 // unconsumed byte; consumed / rejected connections are never delivered and get closed; shutdown leaves nothing behind.
 
 import (
+	"strings"
 	"bytes"
 	"context"
 	"errors"
@@ -127,9 +128,17 @@ type lhist struct {
 	staggered  bool // clients connect one after the other: later connections reuse the pooled buffers of earlier ones
 }
 
+// lastListenerTrace: capacity of connChan and the hook events of the last history (for the `ltrace` stream)
+var lastListenerTrace struct {
+	cap int
+	ev  []string
+}
+
 func runListenerHistory(r *vrng, h lhist) (sig, desc string, summary string) {
 	prev := runtime.GOMAXPROCS(h.procs)
 	defer runtime.GOMAXPROCS(prev)
+	hrec := startHookRec("l.")
+	defer func() { lastListenerTrace.ev = hrec.stop() }()
 	base := runtime.NumGoroutine()
 	inner, err := net.Listen("tcp", "127.0.0.1:0")
 	if err != nil {
@@ -145,6 +154,10 @@ func runListenerHistory(r *vrng, h lhist) (sig, desc string, summary string) {
 		ipr.middleware = append(ipr.middleware, wrapHandler(NextHandlerFunc(func(cx *Connection, next Handler) error { return nil })))
 		li.compiledRoute = RouteList{ipr}.Compile(zap.NewNop(), 150*time.Millisecond, listenerHandler{})
 	}
+	lastListenerTrace.cap = cap(li.connChan)
+	hrec.mu.Lock()
+	hrec.owner = li
+	hrec.mu.Unlock()
 	go li.loop()
 
 	clients := make([]*lclient, h.n)
@@ -329,6 +342,8 @@ func runListenerHistory(r *vrng, h lhist) (sig, desc string, summary string) {
 func TestVerifListener(t *testing.T) {
 	out := vopen(t, "listener")
 	defer out.close()
+	tr := vopen(t, "ltrace")
+	defer tr.close()
 	r := &vrng{vseed()*433494437 + 7}
 	n := vcount(30)
 	stats := map[string]int{}
@@ -350,6 +365,10 @@ func TestVerifListener(t *testing.T) {
 		} else {
 			fmt.Fprintf(out.out, "ok %s\n", sum)
 		}
+		// the hook events of this history must be a run of the listener model
+		fmt.Fprintf(tr.cases, "ltrace %d %d %s\n", lastListenerTrace.cap, len(lastListenerTrace.ev), strings.Join(lastListenerTrace.ev, " "))
+		fmt.Fprintln(tr.out, "accepted")
+		stats["hook-events"] += len(lastListenerTrace.ev)
 		stats[fmt.Sprintf("slow=%v", h.slow)]++
 		stats[fmt.Sprintf("procs=%d", h.procs)]++
 	}
